@@ -117,3 +117,13 @@ Theorem C07_history_free : forall docs bs ix cg ops1 outs1 p1 ops2 outs2 p2 q,
   run (init_pool ix cg) ops1 = (outs1, p1) -> run p1 ops2 = (outs2, p2) -> pure_answer p1 q <> None ->
   fst (step p2 q) = fst (step p1 q).
 Proof. exact indexed_history_free_any. Qed.
+
+(* Assumptions of the remaining named statements of this file (the gate requires one per statement). *)
+Print Assumptions C07_repeat_same_partial.
+Print Assumptions C07_history_free_partial.
+Print Assumptions C07_inv_preserved.
+Print Assumptions C07_indexed_repeat_same.
+Print Assumptions C07_indexed_history_free.
+Print Assumptions C07_indexed_history_free_initial.
+Print Assumptions C07_repeat_same.
+Print Assumptions C07_history_free.
